@@ -28,17 +28,17 @@ omit [DecidableEq K] in
 theorem sound_nil (f : X → V) (key : X → K) : Sound f key ([] : Store K V) := by
   intro k v h; simp at h
 
-theorem memoStep_value {f : X → V} {key : X → K} {c : Store K V} (cap : Nat) (x : X)
-    (hs : Sound f key c) : (memoStep f key cap c x).1 = f x := by
+theorem memoStep_value {f : X → V} {key : X → K} {c : Store K V} (keep : V → Bool) (cap : Nat) (x : X)
+    (hs : Sound f key c) : (memoStep f key keep cap c x).1 = f x := by
   unfold memoStep
   split
   · rename_i v hv
     exact (hs _ _ (get?_mem hv) x rfl).symm
   · rfl
 
-theorem memoStep_sound {f : X → V} {key : X → K} {c : Store K V} (cap : Nat) (x : X)
+theorem memoStep_sound {f : X → V} {key : X → K} {c : Store K V} (keep : V → Bool) (cap : Nat) (x : X)
     (hk : ∀ x y, key x = key y → f x = f y) (hs : Sound f key c) :
-    Sound f key (memoStep f key cap c x).2 := by
+    Sound f key (memoStep f key keep cap c x).2 := by
   unfold memoStep
   split
   · rename_i v hv
@@ -51,6 +51,9 @@ theorem memoStep_sound {f : X → V} {key : X → K} {c : Store K V} (cap : Nat)
       exact hs _ _ (get?_mem hv) y hy
     · exact hs _ _ (mem_remove hm) y hy
   · intro k w hm y hy
+    simp only at hm
+    split at hm
+    case isFalse => exact hs _ _ hm y hy
     simp only [set] at hm
     have hm' := List.mem_of_mem_take hm
     simp only [List.mem_cons] at hm'
@@ -61,15 +64,15 @@ theorem memoStep_sound {f : X → V} {key : X → K} {c : Store K V} (cap : Nat)
       exact hk _ _ hy
     · exact hs _ _ (mem_remove hm') y hy
 
-theorem runMemo_outputs {f : X → V} {key : X → K} (cap : Nat)
+theorem runMemo_outputs {f : X → V} {key : X → K} (keep : V → Bool) (cap : Nat)
     (hk : ∀ x y, key x = key y → f x = f y) :
-    ∀ (c : Store K V) (xs : List X), Sound f key c → (runMemo f key cap c xs).1 = xs.map f := by
+    ∀ (c : Store K V) (xs : List X), Sound f key c → (runMemo f key keep cap c xs).1 = xs.map f := by
   intro c xs
   induction xs generalizing c with
   | nil => intro _; rfl
   | cons x xs ih =>
     intro hs
     simp only [runMemo, List.map_cons]
-    rw [memoStep_value cap x hs, ih _ (memoStep_sound cap x hk hs)]
+    rw [memoStep_value keep cap x hs, ih _ (memoStep_sound keep cap x hk hs)]
 
 end BrushVerif.Cache
